@@ -213,6 +213,22 @@ fn c16_relative_join_over_255() -> bool {
     r.is_none()
 }
 
+/// C03: the decoder accepts exactly the well-formed messages: a root question followed by one 11-octet record (root owner, empty RDATA)
+/// is well-formed - this is what `dig +edns . NS` sends - and must be accepted.
+fn c03_minimal_records_accepted() -> bool {
+    let mut m: Vec<u8> = vec![0xab, 0xcd, 0x00, 0x00, 0x00, 0x01, 0x00, 0x00, 0x00, 0x00, 0x00, 0x01];
+    m.extend_from_slice(&[0x00, 0x00, 0x02, 0x00, 0x01]); // question: root, NS, IN
+    m.extend_from_slice(&[0x00, 0x00, 0x29, 0x10, 0x00, 0x00, 0x00, 0x00, 0x00, 0x00, 0x00]); // OPT: root, type 41, class 4096, ttl 0, rdlength 0
+    let r = Message::from_octets(&m);
+    println!("input: 28-octet query: root question + one additional record of 11 octets (root owner, RDLENGTH 0)");
+    println!("required: accepted (1 question, 1 additional record)");
+    match &r {
+        Ok(msg) => println!("observed: accepted, {} question(s), {} additional", msg.questions.len(), msg.additional.len()),
+        Err(e) => println!("observed: Err({e:?})"),
+    }
+    matches!(r, Ok(msg) if msg.questions.len() == 1 && msg.additional.len() == 1)
+}
+
 /// C09 (answer section holds only records for the question name or its CNAME chain) / C10: a question beneath a delegation point of an
 /// authoritative zone, resolved without recursion (RD clear or authoritative-only mode), is a referral: the NS records of the
 /// delegation point are not records for the question name and must not be handed to the server as answer records.
@@ -275,6 +291,7 @@ fn main() {
         "c15_prune_after_reinsert" => c15_prune_after_reinsert(),
         "c09_referral_in_answer_section" => c09_referral_in_answer_section(),
         "c03_pointer_into_own_name" => c03_pointer_into_own_name(),
+        "c03_minimal_records_accepted" => c03_minimal_records_accepted(),
         "c16_relative_join_over_255" => c16_relative_join_over_255(),
         "c12_wildcard_only_node_merge" => c12_wildcard_only_node_merge(),
         _ => {
